@@ -52,6 +52,14 @@ TITLES = {
     'C07b/1': ('variance / stddev merge computes the cross term from the already updated mean', 'a group whose rows arrive through at least two partitions with different means'),
     'C07b/2': ('grouped DISTINCT aggregates are fed with indexes relative to the DISTINCT list instead of absolute aggregate indexes', 'GROUP BY with a DISTINCT aggregate listed after a plain one'),
     'C14b/1': ('DROP SCHEMA IF EXISTS short-circuits the removal', 'DROP SCHEMA IF EXISTS on an existing schema'),
+    'C08b/1': ('BINARY sort keys are no longer marked heap-backed (only the 12-byte prefix is compared)', 'a BINARY / BLOB sort key with two values agreeing on their first 12 bytes'),
+    'C08b/2': ('LIMIT no longer clears the remaining offset after slicing the batch where the OFFSET ends', 'an OFFSET ending inside a batch and a LIMIT spanning further batches'),
+    'C10b/1': ('padding of the last delta miniblock rounded down instead of up', 'a DELTA_LENGTH_BYTE_ARRAY / DELTA_BYTE_ARRAY page whose last length miniblock is partially filled and not byte aligned'),
+    'C10b/2': ('a compressed v1 data page whose two sizes are equal is copied instead of decompressed', 'a page of a compressed chunk whose compressed size happens to equal its uncompressed size'),
+    'C17b/1': ('ByteRecords::clear_completed fast path ignores pending field ends', 'a read ending right after the delimiter of a leading empty field while completed records are cleared'),
+    'C17b/2': ('the header is skipped again after every refill of the record buffer', 'a file with a header and more records than the batch capacity'),
+    'C20b/1': ('LIKE-to-regex translation pushes the escaped character without regex escaping', 'a LIKE pattern escaping a regex metacharacter (a\\.c)'),
+    'C20b/2': ('left() with a negative count uses the byte length', 'a negative count and a multi-byte character'),
     'C14b/2': ('INSERT flushes the table after every batch', 'INSERT ... SELECT from the same table, or an INSERT whose source fails after the first batch'),
 }
 # how the machinery fared before / after strengthening (filled by hand from the session log)
